@@ -11,8 +11,10 @@ PLAN = dict(
         crate="tracing-subscriber", tls_shim_crates=["tracing-core", "tracing-subscriber"], once_cell_stub=True,
         modules=[dict(name="__verif_c06s", attach="inline", file="tracing-subscriber/src/registry/stack.rs", modpath="registry::stack", files=["stack.kani.rs"]),
                  dict(name="__verif_c06", attach="inline", file="tracing-subscriber/src/subscribe/context.rs", modpath="subscribe::context",
-                      files=["../common/sub_prelude.rs", "scope.kani.rs"])],
-        append=_m.SUB_APPENDS[1:],
+                      files=["../common/sub_prelude.rs", "scope.kani.rs"]),
+                 dict(name="__verif_c06e", attach="inline", file="tracing-subscriber/src/registry/sharded.rs", modpath="registry::sharded",
+                      files=["../common/sub_prelude.rs", "event_parent.kani.rs"])],
+        append=_m.SUB_APPENDS,
     )],
     manifest=dict(technique='bounded equivalence of the real SpanStack with a spec model; bounded check of Scope/parent/Context resolution over a symbolic span table (Kani)',
         text="Bounded stand-in, not a proof: every enter/exit history of length <= 4 over 3 ids and every 4-span ancestry table with arbitrary per-layer filter bits. Within the bound the real code matches the statement's definitions exactly.",
